@@ -151,14 +151,24 @@ Definition apply_pos (p : posspec) (t : mtree) : mtree :=
   | PAt m => mx_map_leaves (fun tag l => match lookup_pos m tag with Some (cid, idx) => l_set_pos cid idx l | None => l end) t
   end.
 
-(* Service.GetJournals: the visit stops with an error as soon as the result holds maxLimit partitions *)
+(* Service.GetJournals: the visit stops with an error as soon as the result holds more than maxLimit partitions
+   (`len(res) > maxLimit` after adding the partition met): maxLimit partitions are served, maxLimit+1 and more refused *)
 Fixpoint get_journals_f {A : Type} (maxl : nat) (visit acc : list A) : option (list A) :=
   match visit with
   | [] => Some acc
   | x :: tl => let acc1 := acc ++ [x] in
-               if Nat.eqb (length acc1) maxl then None else get_journals_f maxl tl acc1
+               if Nat.ltb maxl (length acc1) then None else get_journals_f maxl tl acc1
   end.
 Definition get_journals {A : Type} (maxl : nat) (matching : list A) : option (list A) := get_journals_f maxl matching [].
+(* the comparison before its repair: `len(res) == maxLimit` after adding the partition -- exactly maxLimit matching
+   partitions were refused although the limit (and the error text) allow them *)
+Fixpoint get_journals_f_eq {A : Type} (maxl : nat) (visit acc : list A) : option (list A) :=
+  match visit with
+  | [] => Some acc
+  | x :: tl => let acc1 := acc ++ [x] in
+               if Nat.eqb (length acc1) maxl then None else get_journals_f_eq maxl tl acc1
+  end.
+Definition get_journals_eq {A : Type} (maxl : nat) (matching : list A) : option (list A) := get_journals_f_eq maxl matching [].
 Definition merge_limit : nat := 50.
 
 (* the same visit when opening a partition's journal can fail (Journals.GetOrCreate returns an error: I/O fault, no file
@@ -169,7 +179,7 @@ Fixpoint get_journals_of {A : Type} (opens : A -> bool) (maxl : nat) (visit acc 
   | [] => Some acc
   | x :: tl => if opens x
                then let acc1 := acc ++ [x] in
-                    if Nat.eqb (length acc1) maxl then None else get_journals_of opens maxl tl acc1
+                    if Nat.ltb maxl (length acc1) then None else get_journals_of opens maxl tl acc1
                else None
   end.
 Definition get_journals_o {A : Type} (opens : A -> bool) (maxl : nat) (matching : list A) : option (list A) :=
